@@ -1,3 +1,4 @@
 From Coq Require Import Extraction ExtrOcamlBasic.
-From L60870 Require Import Apci.Reasm Apci.Deliver Apci.KBuf.
-Extraction "model_apci.ml" recv_call rinit feed bytes_run on_frame on_frames check_seq is_full push kempty outstanding.
+From L60870 Require Import Apci.Reasm Apci.Deliver Apci.KBuf Apci.Frame.
+Extraction "model_apci.ml" recv_call rinit feed bytes_run on_frame on_frames check_seq is_full push kempty outstanding
+  sq_step sq_run enc_i enc_s enc_u wf_apdu ns_dec nr_dec.
